@@ -123,6 +123,7 @@ def run(prog: Program, col: Collector, tier: str, refs: Optional[Refs] = None, c
     # ---------------------------------------------------------------- R06.3
     col.rule("R06.3", "eager rules take the dtype from find_domain(op, operand outputs in order) with their own op", floor=9)
     _find_domain_calls(prog, col, refs, cat)
+    _ground_rule_dtypes(prog, col, refs, cat)
 
     # ---------------------------------------------------------------- R06.4
     col.rule("R06.4", "Tensor declares the trailing shape of its array as event shape", floor=1)
@@ -257,17 +258,51 @@ def _sizes(prog: Program, col: Collector, refs: Refs, cat: Catalogue):
                     lhs, rhs = n.targets[0].elts[0].id, n.targets[0].elts[1].id
         if lhs is None:
             continue
+        # locals bound exactly once (plain or same-length tuple assignment): looked through when extracting a formula
         env: Dict[str, ast.AST] = {}
-        candidates: List[Tuple[ast.AST, ast.AST, Optional[Set[str]]]] = []  # (stmt, expr, op-guard)
+        defs: Dict[str, List[Tuple[ast.AST, ast.AST]]] = {}
         for n in walk_no_nested(f.node):
-            if isinstance(n, ast.Assign) and len(n.targets) == 1 and isinstance(n.targets[0], ast.Name):
-                tname = n.targets[0].id
-                v = n.value
-                mentions = {x.value.id for x in ast.walk(v) if isinstance(x, ast.Attribute) and x.attr in ("size", "dtype") and isinstance(x.value, ast.Name)}
-                arith = any(isinstance(x, (ast.BinOp, ast.Call)) for x in ast.walk(v))
-                if tname in ("size", "dtype") and mentions and arith and (mentions <= {lhs, rhs}):
-                    guard = _op_guard(f, n, opname, refs, cat)
-                    candidates.append((n, v, guard))
+            if isinstance(n, ast.Assign) and len(n.targets) == 1:
+                t, v = n.targets[0], n.value
+                if isinstance(t, ast.Name):
+                    defs.setdefault(t.id, []).append((n, v))
+                elif isinstance(t, ast.Tuple) and isinstance(v, ast.Tuple) and len(t.elts) == len(v.elts):
+                    for te, ve in zip(t.elts, v.elts):
+                        if isinstance(te, ast.Name):
+                            defs.setdefault(te.id, []).append((n, ve))
+        for k, ds in defs.items():
+            if len(ds) == 1 and k not in (lhs, rhs, opname):
+                env[k] = ds[0][1]
+        specific = ref.startswith("op:")
+        candidates: List[Tuple[ast.AST, ast.AST, Optional[Set[str]]]] = []  # (stmt, expr, op-guard)
+        seen_c = set()
+        # what flows into the dtype position of a returned Array[<dtype>, <shape>]
+        for r_ in [n for n in walk_no_nested(f.node) if isinstance(n, ast.Return) and isinstance(n.value, ast.Subscript)]:
+            sub = r_.value
+            if not (isinstance(sub.value, ast.Name) and sub.value.id == "Array" and isinstance(sub.slice, ast.Tuple) and len(sub.slice.elts) == 2):
+                continue
+            e0 = sub.slice.elts[0]
+            srcs: List[Tuple[ast.AST, ast.AST]] = []
+            if isinstance(e0, ast.Name) and e0.id in defs:
+                srcs = list(defs[e0.id])
+            else:
+                srcs = [(r_, e0)]
+            for st_, v in srcs:
+                if id(st_) in seen_c:
+                    continue
+                vv = v
+                hops = 0
+                while isinstance(vv, ast.Name) and vv.id in env and hops < 6:
+                    vv = env[vv.id]
+                    hops += 1
+                if isinstance(vv, ast.Constant):
+                    continue  # "real" / the documented constant 2 of boolean results: no computed bound
+                expanded = [vv] + [env[x.id] for x in ast.walk(vv) if isinstance(x, ast.Name) and x.id in env]
+                mentions = {x.value.id for e_ in expanded for x in ast.walk(e_) if isinstance(x, ast.Attribute) and x.attr in ("size", "dtype") and isinstance(x.value, ast.Name)}
+                arith = any(isinstance(x, (ast.BinOp, ast.Call)) for e_ in expanded for x in ast.walk(e_))
+                if mentions and mentions <= {lhs, rhs} and (arith or specific):
+                    seen_c.add(id(st_))
+                    candidates.append((st_, v, _op_guard(f, st_, opname, refs, cat)))
         for st, expr, guard in candidates:
             sym = _to_sym(expr, lhs, rhs, opname, env)
             if sym is None:
@@ -287,6 +322,9 @@ def _sizes(prog: Program, col: Collector, refs: Refs, cat: Catalogue):
                 continue
             for o in sorted(concrete, key=lambda x: x.var):
                 ab = axioms.identify(cat, o)
+                if ab not in _ABS_FN and sym.kind in ("L", "R"):
+                    col.note(f"{f.fq}::{o.var}", f"dtype of one operand passed through by `{o.var}` (no computed bound; outside R06.2)", f.loc(st))
+                    continue
                 if ab not in _ABS_FN:
                     col.unresolved(f"{f.fq}::{o.var}", f"no integer semantics for {ab}", f.loc(st))
                     continue
@@ -380,6 +418,64 @@ def _find_domain_calls(prog: Program, col: Collector, refs: Refs, cat: Catalogue
         col.check(in_order and covers, construct, "same call shape as the lazy constructor: own op, operand outputs in parameter order",
                   f"find_domain is called with operands {names} but the rule's operands are {term_params} in that order: the eager result is typed differently from the lazy term "
                   "(non-commutative typing rules: floordiv, getitem, matmul, pow, shifts)", mod.loc(call))
+
+
+def _ground_rule_dtypes(prog: Program, col: Collector, refs: Refs, cat: Catalogue):
+    """Eager rules registered for (Unary|Binary, <abstract op class>, Tensor|Number ...): the result type depends on the op,
+    so the dtype of every Tensor/Number they build must flow from find_domain(<own op>, ...)."""
+    GROUND = {"funsor.tensor.Tensor", "funsor.terms.Number"}
+    seen = set()
+    for r in cat.registrations:
+        if r.registry not in ("funsor.interpretations.eager", "funsor.interpretations.eager_base") or r.target is None or len(r.pattern) < 3:
+            continue
+        head = refs.resolve(r.pattern[0]) if isinstance(r.pattern[0], (ast.Name, ast.Attribute)) else None
+        if head not in ("funsor.terms.Unary", "funsor.terms.Binary"):
+            continue
+        opref = cat.op_class_ref(refs.resolve(r.pattern[1]) if isinstance(r.pattern[1], (ast.Name, ast.Attribute)) else None)
+        if opref is None or not opref.startswith("abs:"):
+            continue
+        operands = [refs.resolve(p) if isinstance(p, (ast.Name, ast.Attribute)) else None for p in r.pattern[2:]]
+        if not all(o in GROUND for o in operands):
+            continue
+        f = r.target
+        if f.fq in seen or isinstance(f.node, ast.Lambda):
+            continue
+        seen.add(f.fq)
+        opname = f.positional[0] if f.positional else None
+        defs: Dict[str, List[ast.AST]] = {}
+        for n in walk_no_nested(f.node):
+            if isinstance(n, ast.Assign) and len(n.targets) == 1 and isinstance(n.targets[0], ast.Name):
+                defs.setdefault(n.targets[0].id, []).append(n.value)
+
+        def from_find_domain(e, depth=0) -> bool:
+            if depth > 4:
+                return False
+            for x in ast.walk(e):
+                if isinstance(x, ast.Call) and refs.resolve(x.func) == "funsor.domains.find_domain" and x.args \
+                        and isinstance(x.args[0], ast.Name) and x.args[0].id == opname:
+                    return True
+            names = [x.id for x in ast.walk(e) if isinstance(x, ast.Name) and x.id in defs]
+            return bool(names) and all(all(from_find_domain(d, depth + 1) for d in defs[n]) for n in names)
+
+        built = 0
+        for ret in [n for n in walk_no_nested(f.node) if isinstance(n, ast.Return) and n.value is not None]:
+            for c in [x for x in ast.walk(ret.value) if isinstance(x, ast.Call)]:
+                callee = refs.resolve(c.func) if isinstance(c.func, (ast.Name, ast.Attribute)) else None
+                if callee not in GROUND:
+                    continue
+                pos = 2 if callee.endswith("Tensor") else 1
+                dt = c.args[pos] if len(c.args) > pos else next((k.value for k in c.keywords if k.arg == "dtype"), None)
+                built += 1
+                construct = f"{f.fq}::{norm(c)[:80]}"
+                if dt is None:
+                    col.violation(construct, "the result is built with the default dtype although the rule is registered for a whole class of ops: "
+                                  "its type does not follow find_domain(op, ...)", f.loc(c))
+                else:
+                    col.check(from_find_domain(dt), construct, "the dtype of the result flows from find_domain(<own op>, ...)",
+                              f"the dtype of the result is `{norm(dt)}`, which does not come from find_domain({opname}, ...): for ops whose result type differs from the operand's "
+                              "(comparisons, reductions to Bint[2], bounded-integer arithmetic) the eager value is typed differently from the lazy term", f.loc(c))
+        if not built:
+            col.note(f"{f.fq}::no ground result", "rule builds no Tensor/Number directly", f.loc())
 
 
 # ---------------------------------------------------------------------- R06.5
